@@ -12,7 +12,7 @@ open Zstd Zstd.Model
 def WeightsTableRefines : Prop :=
   ∀ (rest : List Nat) (header al used : Nat) (probs : List Int) (T : Spec.Fse.Table),
     Zstd.Proofs.BitIO.Bytes rest →
-    Spec.Fse.readDescription (rest.take header) 6 12 = some (al, probs, used) →
+    Spec.Fse.readDescription (rest.take header) 6 255 = some (al, probs, used) →
     Spec.Fse.buildTable al probs = some T →
     ∃ ft, (Fse.DTable.new Gen.hufFseMaxSymbol).buildDecoder rest.toArray Gen.hufWeightsMaxLogDec = (ft, .ok used) ∧
       FseBuilt 6 ft ∧ T = specOf ft
